@@ -55,24 +55,17 @@ Theorem C17_inverse_Q : forall s raw v,
 Proof. exact inverse_forward. Qed.
 Print Assumptions C17_inverse_Q.
 
-(* what F17 repaired: the code as it was is not an inverse (M = 2, B = 3, raw 10 -> 23 -> 8) *)
-Theorem C17_inverse_Q_original_refuted :
-  exists s raw, s_m s <> 0 /\ N.land (s_lin s) 0x7f = 0%N /\ (s_fmt s < 3)%N /\ (raw < 256)%N /\
-    ~ (s_fmt s = 1%N /\ raw = 255%N) /\
-    convert_sensor_value_to_raw_orig s (linear_Q s (raw_signed (s_fmt s) raw)) <> Ok (Z.of_N raw).
-Proof. exact inverse_orig_refuted. Qed.
-Print Assumptions C17_inverse_Q_original_refuted.
-
 (* Floating point (binary64, Python's evaluation order), PARTIAL.
    Full statement: for all M, B in -512..511, K1, K2 in -8..7, fmt < 3, raw < 256:
      the float result is finite, |float - formula| <= 2^-50 (|M x| + |B| 10^K1) 10^K2, and
      (M <> 0, not one's-complement -0) the float inverse of the float result is raw.
-   Proved: the same for (M, B) in {(2, 3), (-512, 511)} and ALL exponents, formats and raw
-   readings (393 216 cases evaluated inside Coq over primitive floats). Missing: the other
-   (M, B) pairs - covered only by the per-run check against the implementation (harness
-   oracle: 40 / 400 pairs, all exponents, formats and readings), not by proof. *)
+   Proved: the same for (M, B) in {(2, 3), (-512, 511)}, K1, K2 in {-8, -1, 0, 7} and ALL formats
+   and raw readings (24 576 cases evaluated inside Coq over primitive floats; kept this small
+   because coqchk re-checks the evaluation without the VM). Missing: the other (M, B) pairs and
+   exponents - covered only by the per-run check against the implementation (harness
+   oracle: 40 / 200 pairs, all exponents, formats and readings), not by proof. *)
 Theorem C17_float_close_partial : forall (m b k1 k2 : Z) (fmt raw : N),
-  In (m, b) [(2, 3); (-512, 511)] -> -8 <= k1 <= 7 -> -8 <= k2 <= 7 -> (fmt < 3)%N -> (raw < 256)%N ->
+  In (m, b) [(2, 3); (-512, 511)] -> In k1 [-8; -1; 0; 7] -> In k2 [-8; -1; 0; 7] -> (fmt < 3)%N -> (raw < 256)%N ->
   let s := mkSensor fmt 0 m b k1 k2 in
   exists v, Q_of_float (convert_raw_F s raw) = Some v /\
             close_to_formula s (signed_of fmt raw) v /\
